@@ -74,12 +74,16 @@ def analyse(sh, single_toggles):
             bad = next(i for i in idx if vals(impl[i]) != exp[i])
             rec = {"case": text, "line": ops[bad], "impl": impl[bad], "expected": exp[bad]}
             res["impl_fail_cases"].append(rec)
-            # attribution: smallest set of known toggles whose repaired model meets the oracle
+            # attribution (DESIGN §2.4): (a) the as-is model — the formal description of the known
+            # behaviour, walked in ascending or descending set order — predicts exactly this failure, or
+            # (b) the model with a known finding's toggle switched to "repaired" meets the oracle here.
             who = None
             for t in single_toggles:
                 m = models.get(t)
                 if m is not None and all(vals(m[i]) == exp[i] for i in idx): who = t; break
             if who is None and rep_ok: who = "+".join(single_toggles)
+            if who is None and (all(vals(impl[i]) == vals(asis[i]) for i in idx) or all(vals(impl[i]) == vals(desc[i]) for i in idx)):
+                who = "model"
             if who is None: res["unexplained"].append(rec)
             else: res["attributed"].setdefault(who, []).append(rec)
         # tie: as-is model vs implementation
